@@ -80,7 +80,10 @@ OpenedUpd(ok, t) ==
 
 ReqCheck(r, t) == IF Mono(t) # "ok" THEN Mono(t) ELSE IF r \in reqs THEN "harness.freshReq" ELSE "ok"
 ReqUpd(r, t) == /\ tclock' = t /\ reqs' = reqs \cup {r} /\ nreq' = nreq + 1
-                /\ UNCHANGED <<delivered, failed, preFail, errOnly, ownerClosed, signalled, everFaulted, silentSince, beforeSilence, unanswered, recent, stray, held, peak, maxTag, written>>
+                \* a tag is taken when the request is handed in, possibly long before it is written (blocked
+                \* writes): everything held plus everything handed in and not yet written may be in use now
+                /\ peak' = LET n == Cardinality(held \cup recent) + (nreq + 1 - written) IN IF n > peak THEN n ELSE peak
+                /\ UNCHANGED <<delivered, failed, preFail, errOnly, ownerClosed, signalled, everFaulted, silentSince, beforeSilence, unanswered, recent, stray, held, maxTag, written>>
 
 \* exactly once: never a second message on a request's stack; after a connection failure the
 \* one message an in-flight request gets must be an error
